@@ -419,7 +419,14 @@ def run(tier, seed):
                    'and ordinary decorated elements; haml, pug, slim; indent rotating over %r' % INDENTS,
                    ' | '.join('%d elements, <=%d groups, <=%d repeaters (*2): %d rotation(s)' % (s + (v,)) for s, v in loose),
                    'a case is (AST, indent string, strict_heads); ' + what, exhaustive=True)
+        # keep the reported violations deterministic (the pool delivers them in arrival order and the
+        # default cap is 50): collect all, sort by input, report the first 250
+        found = []
+        c.violation = lambda key, what, func, args: found.append({'key': key, 'what': what, 'replay': {'func': func, 'args': args}})
         run_parallel(c, 'bounded.c15', 'check_indent_loose', loose_cases(loose, strict), chunk=300)
+        del c.violation
+        found.sort(key=lambda v: v['key'])
+        c.violations = found[:250]
         out.append(c.done())
 
     c = Clause('random-large', 'B', 'seeded random ASTs of 5..30 elements with random decorations and 7 indent strings',
